@@ -184,14 +184,30 @@ func (fe *FuncEnc) inline(f *Frame, callee *ssa.Function, name string, args []Te
 
 // havocMods replaces every component of mods by a fresh symbol (allocation sets grow monotonically).
 func (fe *FuncEnc) havocMods(st *State, mods map[string]bool, tag string) {
+	preAlloc := map[string]Term{}
+	for c := range mods {
+		if owner, ok := fe.eng.compOwner[c]; ok && !fe.eng.notCtorOnly[c] {
+			if _, done := preAlloc[owner]; !done {
+				preAlloc[owner] = fe.atom(fe.comp(st, owner, arrSort(SInt, SBool)))
+				st.heap[owner] = preAlloc[owner]
+			}
+		}
+	}
 	for _, c := range sortStrings(mods) {
 		s, ok := fe.eng.compSorts[c]
 		if !ok {
 			continue
 		}
 		old := fe.comp(st, c, s)
+		if strings.HasPrefix(c, "A_") {
+			old = fe.atom(old)
+		}
 		nw := fe.fresh(c+"_"+tag, s)
 		st.heap[c] = nw
+		if owner, ok := fe.eng.compOwner[c]; ok && !fe.eng.notCtorOnly[c] {
+			fe.ctorFrame(st, c, old, nw, preAlloc[owner])
+			fe.assumes["fields only ever written through a pointer to an object allocated in the same invocation (struct literals) keep their value in pre-existing objects across calls and loops (checked syntactically over the whole program)"] = true
+		}
 		if strings.HasPrefix(c, "A_") {
 			fe.assume(tBool(true), Term{fmt.Sprintf("(forall ((r Int)) (! (=> (select %s r) (select %s r)) :pattern ((select %s r))))", old.S, nw.S, old.S), SBool})
 		}
@@ -273,7 +289,7 @@ func (fe *FuncEnc) doBuiltin(f *Frame, x *ssa.Call, b *ssa.Builtin, st *State, p
 	case "copy":
 		dst, src := fe.val(c.Args[0]), fe.val(c.Args[1])
 		es := so.sortOf(c.Args[0].Type().Underlying().(*types.Slice).Elem())
-		comp := "E_" + sortKey(es)
+		comp := "E_" + so.elemKey(c.Args[0].Type().Underlying().(*types.Slice).Elem())
 		e := fe.comp(st, comp, arrSort(SInt, arrSort(SInt, es)))
 		n := fe.define("ncopy", tIte(tLt(slLen(dst), slLen(src)), slLen(dst), slLen(src)))
 		row := fe.fresh("copied", arrSort(SInt, es))
@@ -309,7 +325,7 @@ func (fe *FuncEnc) doAppend(f *Frame, x *ssa.Call, st *State, path Term) {
 	a := fe.val(c.Args[0])
 	elemT := x.Type().Underlying().(*types.Slice).Elem()
 	es := so.sortOf(elemT)
-	comp := "E_" + sortKey(es)
+	comp := "E_" + so.elemKey(elemT)
 	var b Term
 	if bt, ok := c.Args[1].Type().Underlying().(*types.Basic); ok && bt.Info()&types.IsString != 0 {
 		engErr("append(bytes, string...)")
@@ -317,7 +333,7 @@ func (fe *FuncEnc) doAppend(f *Frame, x *ssa.Call, st *State, path Term) {
 	b = fe.valAs(c.Args[1], x.Type())
 	e := fe.comp(st, comp, arrSort(SInt, arrSort(SInt, es)))
 	esrc := e
-	if es == SVal && isVarargsSlice(c.Args[1]) {
+	if so.elemKey(elemT) == "Val" && isVarargsSlice(c.Args[1]) {
 		esrc = fe.comp(st, "EV_Val", arrSort(SInt, arrSort(SInt, es)))
 	}
 	n := fe.define("n", tAdd(slLen(a), slLen(b)))
@@ -340,7 +356,7 @@ func (fe *FuncEnc) doAppend(f *Frame, x *ssa.Call, st *State, path Term) {
 			rowIn.S, base.S, base.S, b.S, esrc.S, b.S, b.S, base.S, oldRow.S, rowIn.S), SBool})
 	}
 	// fresh row
-	aset := "A_E_" + sortKey(es)
+	aset := "A_E_" + so.elemKey(elemT)
 	al := fe.comp(st, aset, arrSort(SInt, SBool))
 	nref := fe.fresh("newarr", SInt)
 	ncap := fe.fresh("newcap", SInt)
@@ -712,9 +728,9 @@ func (e *Engine) storeComps(v ssa.Value, d map[string]bool) {
 	case *ssa.IndexAddr:
 		switch t := x.X.Type().Underlying().(type) {
 		case *types.Slice:
-			d["E_"+sortKey(so.sortOf(t.Elem()))] = true
+			d["E_"+so.elemKey(t.Elem())] = true
 		case *types.Pointer:
-			d[e.arrayComp(x.X, so.sortOf(t.Elem().Underlying().(*types.Array).Elem()))] = true
+			d[e.arrayComp(x.X, t.Elem().Underlying().(*types.Array).Elem())] = true
 		}
 		return
 	}
@@ -736,7 +752,7 @@ func (e *Engine) storeComps(v ssa.Value, d map[string]bool) {
 		}
 	}
 	if arr, ok := pt.Elem().Underlying().(*types.Array); ok {
-		d["E_"+sortKey(so.sortOf(arr.Elem()))] = true
+		d["E_"+so.elemKey(arr.Elem())] = true
 		return
 	}
 	d["C_"+sortKey(so.sortOf(pt.Elem()))] = true
@@ -768,8 +784,8 @@ func (e *Engine) blockWrites(fn *ssa.Function, b *ssa.BasicBlock, d map[string]b
 		case *ssa.Alloc:
 			elem := x.Type().Underlying().(*types.Pointer).Elem()
 			if arr, ok := elem.Underlying().(*types.Array); ok {
-				d["A_E_"+sortKey(so.sortOf(arr.Elem()))] = true
-				d[e.arrayComp(x, so.sortOf(arr.Elem()))] = true
+				d["A_E_"+so.elemKey(arr.Elem())] = true
+				d[e.arrayComp(x, arr.Elem())] = true
 			} else if n, ok := elem.(*types.Named); ok && so.isRepoType(n) {
 				if stt, ok := n.Underlying().(*types.Struct); ok {
 					d["A_H_"+sanitize(so.shortTypeName(n))] = true
@@ -791,8 +807,8 @@ func (e *Engine) blockWrites(fn *ssa.Function, b *ssa.BasicBlock, d map[string]b
 				d["C_"+sortKey(so.sortOf(elem))] = true
 			}
 		case *ssa.MakeSlice:
-			es := so.sortOf(x.Type().Underlying().(*types.Slice).Elem())
-			d["A_E_"+sortKey(es)], d["E_"+sortKey(es)] = true, true
+			es := so.elemKey(x.Type().Underlying().(*types.Slice).Elem())
+			d["A_E_"+es], d["E_"+es] = true, true
 		case *ssa.MakeMap:
 			k := e.mapKeyOf(x.Type().Underlying().(*types.Map))
 			d["A_M_"+k], d["MD_"+k], d["MC_"+k] = true, true, true
@@ -832,12 +848,12 @@ func (e *Engine) blockWrites(fn *ssa.Function, b *ssa.BasicBlock, d map[string]b
 				switch bi.Name() {
 				case "append":
 					if call, ok := in.(*ssa.Call); ok {
-						es := so.sortOf(call.Type().Underlying().(*types.Slice).Elem())
-						d["A_E_"+sortKey(es)], d["E_"+sortKey(es)] = true, true
+						es := so.elemKey(call.Type().Underlying().(*types.Slice).Elem())
+						d["A_E_"+es], d["E_"+es] = true, true
 					}
 				case "copy":
-					es := so.sortOf(c.Args[0].Type().Underlying().(*types.Slice).Elem())
-					d["E_"+sortKey(es)] = true
+					es := so.elemKey(c.Args[0].Type().Underlying().(*types.Slice).Elem())
+					d["E_"+es] = true
 				case "delete":
 					k := e.mapKeyOf(c.Args[0].Type().Underlying().(*types.Map))
 					d["MD_"+k], d["MC_"+k] = true, true
@@ -858,11 +874,11 @@ func (e *Engine) blockWrites(fn *ssa.Function, b *ssa.BasicBlock, d map[string]b
 
 // arrayComp: the component holding the cells of an array allocation.  Go-level variadic argument lists of
 // interface type (fmt operands) live apart from Borno arrays so that the latter can carry a cell invariant.
-func (e *Engine) arrayComp(v ssa.Value, es Sort) string {
-	if es == SVal && isVarargsAlloc(v) {
+func (e *Engine) arrayComp(v ssa.Value, elem types.Type) string {
+	if e.sorts.elemKey(elem) == "Val" && isVarargsAlloc(v) {
 		return "EV_Val"
 	}
-	return "E_" + sortKey(es)
+	return "E_" + e.sorts.elemKey(elem)
 }
 
 func isVarargsAlloc(v ssa.Value) bool {
@@ -873,4 +889,201 @@ func isVarargsAlloc(v ssa.Value) bool {
 func isVarargsSlice(v ssa.Value) bool {
 	sl, ok := v.(*ssa.Slice)
 	return ok && isVarargsAlloc(sl.X)
+}
+
+// scanCtorOnly finds struct-field components that are only ever written through a pointer to an object allocated in
+// the same function invocation (struct literals, constructors).  Objects that already exist when a call or a loop
+// starts are then never written by it: a sound frame fact added at every havoc of such a component.
+func (e *Engine) scanCtorOnly() {
+	e.compOwner = map[string]string{}
+	e.notCtorOnly = map[string]bool{}
+	so := e.sorts
+	for _, fn := range e.funcs {
+		for _, b := range fn.Blocks {
+			for _, in := range b.Instrs {
+				st, ok := in.(*ssa.Store)
+				if !ok {
+					continue
+				}
+				switch a := st.Addr.(type) {
+				case *ssa.FieldAddr:
+					// walk to the root
+					root := ssa.Value(a)
+					for {
+						fa, ok := root.(*ssa.FieldAddr)
+						if !ok {
+							break
+						}
+						root = fa.X
+					}
+					first := a
+					for {
+						inner, ok := first.X.(*ssa.FieldAddr)
+						if !ok {
+							break
+						}
+						first = inner
+					}
+					pt, ok := first.X.Type().Underlying().(*types.Pointer)
+					if !ok {
+						continue
+					}
+					n, ok := pt.Elem().(*types.Named)
+					if !ok || !so.isRepoType(n) {
+						continue
+					}
+					stt, ok := n.Underlying().(*types.Struct)
+					if !ok {
+						continue
+					}
+					comp := fieldComp(so, n, stt, first.Field)
+					e.compOwner[comp] = "A_H_" + sanitize(so.shortTypeName(n))
+					if _, isAlloc := root.(*ssa.Alloc); !isAlloc {
+						e.notCtorOnly[comp] = true
+					}
+				default:
+					// whole-struct store through a pointer
+					pt, ok := st.Addr.Type().Underlying().(*types.Pointer)
+					if !ok {
+						continue
+					}
+					n, ok := pt.Elem().(*types.Named)
+					if !ok || !so.isRepoType(n) {
+						continue
+					}
+					stt, ok := n.Underlying().(*types.Struct)
+					if !ok {
+						continue
+					}
+					_, isAlloc := st.Addr.(*ssa.Alloc)
+					for i := 0; i < stt.NumFields(); i++ {
+						comp := fieldComp(so, n, stt, i)
+						e.compOwner[comp] = "A_H_" + sanitize(so.shortTypeName(n))
+						if !isAlloc {
+							e.notCtorOnly[comp] = true
+						}
+					}
+				}
+			}
+		}
+	}
+}
+
+// ctorFrame: the frame fact for a constructor-only component havoced from old to nw.
+func (fe *FuncEnc) ctorFrame(st *State, comp string, old, nw Term, aOld Term) {
+	fe.assume(tBool(true), Term{fmt.Sprintf("(forall ((r Int)) (! (=> (select %s r) (= (select %s r) (select %s r))) :pattern ((select %s r))))", aOld.S, nw.S, old.S, nw.S), SBool})
+}
+
+// registerAllComps gives every heap component that any function can touch its sort up front, so that a havoc (call or
+// loop) never skips a component merely because the function under proof has not mentioned it yet.
+func (e *Engine) registerAllComps() {
+	so := e.sorts
+	seen := map[string]bool{}
+	var reg func(t types.Type)
+	reg = func(t types.Type) {
+		if t == nil {
+			return
+		}
+		key := types.TypeString(t, nil)
+		if seen[key] {
+			return
+		}
+		seen[key] = true
+		switch u := t.Underlying().(type) {
+		case *types.Pointer:
+			el := u.Elem()
+			if n, ok := el.(*types.Named); ok {
+				if stt, ok := n.Underlying().(*types.Struct); ok {
+					if so.isRepoType(n) {
+						info := so.structInfo(so.sortOf(n))
+						e.noteComp("A_H_"+sanitize(so.shortTypeName(n)), arrSort(SInt, SBool))
+						for i := 0; i < stt.NumFields(); i++ {
+							e.noteComp(fieldComp(so, n, stt, i), arrSort(SInt, info.FSorts[i]))
+							reg(stt.Field(i).Type())
+						}
+					} else {
+						e.noteComp("A_X_"+sanitize(so.shortTypeName(n)), arrSort(SInt, SBool))
+						e.noteComp("X_"+sanitize(so.shortTypeName(n)), arrSort(SInt, SInt))
+					}
+					return
+				}
+			}
+			if arr, ok := el.Underlying().(*types.Array); ok {
+				k := so.elemKey(arr.Elem())
+				e.noteComp("A_E_"+k, arrSort(SInt, SBool))
+				e.noteComp("E_"+k, arrSort(SInt, arrSort(SInt, so.sortOf(arr.Elem()))))
+				reg(arr.Elem())
+				return
+			}
+			if _, ok := el.Underlying().(*types.Signature); ok {
+				return
+			}
+			s := so.sortOf(el)
+			e.noteComp("A_C_"+sortKey(s), arrSort(SInt, SBool))
+			e.noteComp("C_"+sortKey(s), arrSort(SInt, s))
+			reg(el)
+		case *types.Slice:
+			k := so.elemKey(u.Elem())
+			e.noteComp("A_E_"+k, arrSort(SInt, SBool))
+			e.noteComp("E_"+k, arrSort(SInt, arrSort(SInt, so.sortOf(u.Elem()))))
+			reg(u.Elem())
+		case *types.Map:
+			k := e.mapKeyOf(u)
+			ks, vs := so.sortOf(u.Key()), so.sortOf(u.Elem())
+			e.noteComp("A_M_"+k, arrSort(SInt, SBool))
+			e.noteComp("MD_"+k, arrSort(SInt, arrSort(ks, SBool)))
+			e.noteComp("MV_"+k, arrSort(SInt, arrSort(ks, vs)))
+			e.noteComp("MC_"+k, arrSort(SInt, SInt))
+			reg(u.Elem())
+		case *types.Struct:
+			if n, ok := t.(*types.Named); ok && !so.isRepoType(n) {
+				return
+			}
+			for i := 0; i < u.NumFields(); i++ {
+				reg(u.Field(i).Type())
+			}
+		case *types.Tuple:
+			for i := 0; i < u.Len(); i++ {
+				reg(u.At(i).Type())
+			}
+		}
+	}
+	e.noteComp("EV_Val", arrSort(SInt, arrSort(SInt, SVal)))
+	for _, fn := range e.funcs {
+		for _, p := range fn.Params {
+			reg(p.Type())
+		}
+		for _, b := range fn.Blocks {
+			for _, in := range b.Instrs {
+				if v, ok := in.(ssa.Value); ok {
+					reg(v.Type())
+				}
+				for _, op := range in.Operands(nil) {
+					if *op == nil {
+						continue
+					}
+					if g, ok := (*op).(*ssa.Global); ok {
+						el := g.Type().(*types.Pointer).Elem()
+						name := "G_" + sanitize(e.pkgShort(g.Pkg)) + "_" + sanitize(g.Name())
+						if _, dup := e.compSorts[name]; !dup {
+							func() {
+								defer func() { recover() }()
+								e.noteComp(name, so.sortOf(el))
+							}()
+						}
+						reg(el)
+						continue
+					}
+					reg((*op).Type())
+				}
+				if r, ok := in.(*ssa.Range); ok {
+					id := fmt.Sprintf("%s_%s", sanitize(e.fnames[fn]), r.Name())
+					if mt, ok := r.X.Type().Underlying().(*types.Map); ok {
+						e.noteComp("RV_"+id, arrSort(so.sortOf(mt.Key()), SBool))
+					}
+					e.noteComp("RN_"+id, SInt)
+				}
+			}
+		}
+	}
 }
